@@ -31,7 +31,7 @@ CLAIMS = {
         note=TB + "Not decided: that the off state has finished propagating when the tolerance test stops the sweep (C03).",
         ref="DESIGN.md section 4 C04"),
     "C05": dict(
-        technique="idiom matcher for the first-match scan (condition compared as a truth table); order-provenance and who-may-consume rules on the input-order registry; reference comparison of the mux laws, child-current sum and mux row of solve(); object-state rule on the phase loop",
+        technique="idiom matcher for the first-match scan in its spellings (condition compared as a truth table); order-provenance and who-may-consume rules on the input-order registry; reference comparison of the mux laws, child-current sum, mux row of solve() and _find_domain (path summaries vs reference text); object-state rule on the phase loop",
         text="Static decision of all structural clauses: the selection is the ascending first-match scan over (not off and |v|!=0), the declared input order is stored, preserved and read back position by position and the unordered graph view is consumed nowhere else, current goes to the selected input only, one index is used for voltage / per-input resistance / lookup, the mux row reports the selected input as Parent / Rail in / Vin, _find_domain follows the first input with voltage to its root, and the no-live-input rows are dead rows.",
         note=TB + "Not decided: numeric values (C01/C03). The agreement between the solver's selection (off-state and voltage) and _find_domain's (voltage only) relies on C04-R2 (OFF implies 0 V).",
         ref="DESIGN.md section 4 C05"),
@@ -71,7 +71,7 @@ CLAIMS = {
         note=TB + "Not decided: JSON fidelity of floats; equality of solved values after reload (follows from equal parameters and structure).",
         ref="DESIGN.md section 4 C12"),
     "C13": dict(
-        technique="schema / signature agreement between the per-kind _cparams tables and the constructors (constants folded), isinstance-branch vs accepted-type agreement, shape of the generic loader and of LinReg's loader",
+        technique="schema / signature agreement between the per-kind _cparams tables and the constructors (constants folded), isinstance-branch vs accepted-type agreement; reference comparison of the path summaries of the generic loader and of LinReg's loader with reference texts (parsed, never executed)",
         text="Static decision that for every kind the TOML schema and the constructor agree on keys, optionality, defaults and dict / list forms, that the generic loader raises KeyError / ValueError as documented before storing anything, builds cls(name, **params) from a parse of the file made on that call (no memoised or cached parse) and leaves the shared default limits alone, and that LinReg's own loader maps keys to keywords one to one.",
         note=TB + "Not decided: TOML parsing. Rectifier.vdrop is mandatory in the file although optional in the constructor (allowed: the file is stricter).",
         ref="DESIGN.md section 4 C13"),
@@ -101,9 +101,9 @@ CLAIMS = {
         note=TB + "Not decided: the values of the currents (the solver's iteration count is dropped by batt_life; observed, no rule armed), strict monotonicity of time (needs duration > 0), termination.",
         ref="DESIGN.md section 4 C18"),
     "C19": dict(
-        technique="truth-table comparison of the node-placement conditions; structural rules on the edge loop, legend and override order; definite-alias store analysis (shared with C17); term identity for the colour mix and for the decimals of every SI band; role-based pandas-selection records for colour / label / legend sources",
+        technique="reference comparison of path summaries (guards as formulas, loops as one symbolic iteration, ordered store / call effects) of _diag, its node helper and _prep_loss with reference texts that are parsed, never executed; definite-alias store analysis (shared with C17); term identity for the colour mix and for the decimals of every SI band",
         text="Static decision of the structure of the graph that is built: every component added exactly once (cluster iff grouping on and group non-empty), one edge per graph edge through the inverse name map, legend only for heat diagrams, override precedence default -> kind -> name, no mutation of configuration or defaults, the heat mix / scale / duration-weighted mean, own-row label and colour, and the SI band table (three significant digits).",
-        note=TB + "Not decided: what Graphviz renders from the graph. Several rules in this module read one small function by role (the frame that gets the 'Mix' column, the accumulator pair of the phase loop); a refactor outside the accepted shapes ends in ANALYSIS-ERROR.",
+        note=TB + "Not decided: what Graphviz renders from the graph. The reference texts (sa/spec_diag.py) are part of the trusted base. Constructs the summary engine does not model (lambdas, dispatch tables, dict.fromkeys) end in ANALYSIS-ERROR, as does a band table that is not an if / elif chain.",
         ref="DESIGN.md section 4 C19"),
     "C20": dict(
         category="proof",
